@@ -3,10 +3,10 @@
 import json, os
 V = os.path.dirname(os.path.dirname(os.path.abspath(__file__)))
 
-fErr, fRetract, fCancel, fDeleted, fFlag, fListen, fTwoEff = 1, 2, 4, 8, 16, 32, 64
+fErr, fRetract, fCancel, fDeleted, fFlag, fListen, fTwoEff, fActErr = 1, 2, 4, 8, 16, 32, 64, 128
 STUBS = ["ast/WhenScope.go:WhenScope.Evaluate", "ast/ThenScope.go:ThenScope.Execute"]
 TIERA_H = [["engine", "harness/engine"], ["ast", "harness/ast_stubs"]]
-FEATN = {1: "fail", 2: "retract", 4: "cancel", 8: "deleted", 16: "errflag", 32: "listeners", 64: "two-effects"}
+FEATN = {1: "fail", 2: "retract", 4: "cancel", 8: "deleted", 16: "errflag", 32: "listeners", 64: "two-effects", 128: "action-fail"}
 
 
 def featname(f):
@@ -102,7 +102,7 @@ P["C08"] = {
     "design_ref": "DESIGN.md §8 C08, Appendix B", "assumptions": TIERA_ASSUME,
     "bounds": "Tier A: histories of <= 3 calls (Execute, ExecuteWithContext with a cancellable context, FetchMatchingRules) on one instance, n <= 3 rules, K <= 2 firings per call; every way of ending arises from the stubs",
     "outside": "leaked memo values of real expressions (Tier B); longer histories",
-    "runs": [histA(2, 1, 2, fRetract, QT), histA(2, 1, 2, fRetract | fErr | fFlag, T), histA(2, 1, 3, fRetract, T), histA(3, 1, 2, fRetract, T),
+    "runs": [histA(2, 1, 2, fRetract, QT), histA(2, 1, 2, fRetract | fActErr, QT), histA(2, 2, 2, fRetract, T), histA(2, 1, 2, fRetract | fErr | fFlag, T), histA(2, 1, 3, fRetract, T), histA(3, 1, 2, fRetract, T),
              histA(2, 2, 2, fRetract | fCancel, T), histA(2, 1, 2, fRetract | fErr | fFlag | fDeleted, T)]}
 P["C16"] = {
     "design_ref": "DESIGN.md §8 C16", "assumptions": TIERA_ASSUME,
@@ -139,8 +139,8 @@ P["C12"] = {
              ]}
 
 TB_SETS = {
-    "memo": ["b_basic", "b_toplevel", "b_slice_sel", "b_slice", "b_map", "b_nested", "b_short", "b_shared", "b_forget", "b_ptrswap", "b_forgetcall"],
-    "control": ["b_retract", "b_fail", "b_nilptr"],
+    "memo": ["b_basic", "b_toplevel", "b_slice_sel", "b_slice", "b_map", "b_nested", "b_short", "b_shared", "b_forget", "b_ptrswap", "b_forgetcall", "b_chain", "b_failshared"],
+    "control": ["b_retract", "b_fail", "b_nilptr", "b_actfail"],
     "values": ["b_compound", "b_args", "b_float", "b_string"],
 }
 FLAGN = {1: "perm", 2: "symsal", 4: "nilP"}
@@ -225,7 +225,7 @@ P["C04"] = {
               "bounds": "SetNumberValue, all 144 kind pairs", "thorough": {"secondary": "z3,cvc5"}},
              {"name": "c04-assign", "pkgdir": "zztier", "harness": TIERC_H, "entry": "VerifC04Assign", "tiers": QT, "templates": ["a_assign.grl"], "require_reach": ["c04:case"],
               "bounds": "22 assignment cases, symbolic facts, frame condition"},
-             tierB("values", 3, 0, QT, require_reach=["tierB:execute-returned", "tierB:compound-fired-once"]), tierB("memo", 3, 0, T), reuseB("reuseq", 2, T)]}
+             tierB("values", 3, 0, QT, require_reach=["tierB:execute-returned", "tierB:compound-fired-once"]), reuseB("reuseq", 2, QT), tierB("memo", 3, 0, T)]}
 
 
 NC07 = 33
@@ -253,14 +253,26 @@ P["C18"] = {
               "init": ["strconv", "unicode/utf8"], "require_reach": ["c18:quoted"], "thorough": {"max_values": 300}, "bounds": "every 2-byte string constant"}]}
 
 
-HIST = ["h_remove", "h_reuse", "h_reuse_twice_lib", "h_reuse_twice_kb", "h_dup_later_resource", "h_dup_same_resource", "h_two_kbs"]
+HIST = ["h_remove", "h_reuse", "h_reuse_twice_lib", "h_reuse_twice_kb", "h_dup_later_resource", "h_dup_same_resource", "h_two_kbs", "h_dup_identical"]
 for sl in (0, 1):
     P["C16"]["runs"].append({"name": "c16-histories" + ("-stored" if sl else ""), "pkgdir": "zztier", "harness": TIERC_H, "entry": "VerifC16History", "args": [sl], "tiers": QT,
                              "templates": [h + ".recipe.json" for h in HIST], "require_reach": ["c16:history"] + (["c16:stored-and-loaded"] if sl else []), "replay_attempts": 60, "compare_events": False,
-                             "bounds": "7 build / remove / re-build histories run natively by the real builder and library (remove, reuse of the name, second removal at library and knowledge-base level, duplicate in a later and in the same resource, two knowledge bases in one library)" + (", then store -> load" if sl else "") + "; suffix on symbolic facts"})
+                             "bounds": "8 build / remove / re-build histories run natively by the real builder and library (remove, reuse of the name, second removal at library and knowledge-base level, duplicate in a later and in the same resource, two knowledge bases in one library)" + (", then store -> load" if sl else "") + "; suffix on symbolic facts"})
 P["C16"]["assumptions"] = TIERA_ASSUME + TIERB_ASSUME
 P["C16"]["bounds"] += "; Tier B: 7 histories (native prefix) continued symbolically: instantiate, Execute and FetchMatchingRules on symbolic facts (removed rules never evaluated / fired / matched, the reused name behaves exactly as its rule built alone), again after store -> load"
 P["C16"]["outside"] = "histories outside the 7 recipes; symbolic rule names (the Tier K of DESIGN §8 C16 over SMT strings is not built)"
+
+def fetchTwice(setname, tiers):
+    return {"name": "tierB-fetch-twice-%s" % setname, "pkgdir": "zztier", "harness": TIERC_H, "entry": "VerifFetchTwice", "args": [setname], "tiers": tiers,
+            "templates": [t + ".grl" for t in TB_SETS[setname]], "require_reach": ["tierB:second-fetch"], "compare_events": False,
+            "bounds": "FetchMatchingRules twice on one instance and one data context of each template of set '%s', the host changing the (symbolic) facts in between" % setname}
+
+
+TB_SETS["fetch"] = ["b_basic", "b_short", "b_map", "b_slice", "b_nested", "b_shared"]
+P["C11"]["runs"].append(fetchTwice("fetch", QT))
+P["C11"]["assumptions"] = TIERA_ASSUME + TIERB_ASSUME
+P["C11"]["bounds"] += "; Tier B: real conditions of 6 templates on symbolic facts, FetchMatchingRules called twice on one instance and data context with host-side fact changes in between (result = exactly the rules whose condition holds now)"
+P["C08"]["runs"].append(fetchTwice("fetch", T))
 
 P["C20"] = {
     "design_ref": "DESIGN.md §8 C20", "assumptions": TIERC_ASSUME + [
